@@ -316,7 +316,7 @@ class RoundTripFile(Component):
             pcm, shape = gen.pcm_multi(rng, frames, ch, bps)
             f = gen.option_fields(rng)
             f.update({'fe': rng.choice(['byte', 'sample', 'chan']), 'reader': rng.choice(['byte', 'sample', 'iter', 'chan']),
-                      'endian': rng.choice(['le', 'be']), 'rate': rng.choice([8000, 44100, 48000, 96000, 1, 655350, 1048575, 12345]),
+                      'endian': rng.choice(['le', 'be']), 'rate': rng.choice([8000, 44100, 48000, 96000, 1, 655350, 1048575, 12345, 37800, 18900, 254900, 300]),
                       'ch': ch, 'bps': bps, 'bs': bs, 'pad': rng.choice([0, 0, 16, 100]),
                       'seek': rng.choice(['off', 'default', 'frames:1', 'frames:3', 'secs:1']),
                       'shape': shape})
